@@ -34,9 +34,12 @@ def flush : Bool := Gen.ListFacts.layoutFlushesLast
 /-! ### the widgets' regenerated bodies, run through the interpreter `Model/WidExec.lean` beside the models
 
 A disagreement is appended to the model column (`INTERP!=MODEL …`), i.e. reported as a broken correspondence with the
-failing input. -/
+failing input; it also says whether the interpreter's result, canonicalised like the implementation's, IS the
+implementation's (`INTERP==IMPL`: the interpreter follows the changed code, the model does not) or not (`INTERP!=IMPL`). -/
 
-def slInterp (s : SimpleList.St) (o : SimpleList.Op) : String :=
+def vsImpl (canon impl : String) : String := if canon = impl then " INTERP==IMPL" else " INTERP!=IMPL"
+
+def slInterp (s : SimpleList.St) (o : SimpleList.Op) (canon : SimpleList.St → List SimpleList.Row → String) (impl : String) : String :=
   let B := WidExec.genB
   let r := match o with
     | .down => WidExec.runList B B.listDown s 0 0
@@ -49,22 +52,23 @@ def slInterp (s : SimpleList.St) (o : SimpleList.Op) : String :=
     | .draw h => WidExec.runList B B.listDraw s h 0
   match r, SimpleList.step genRhs s o with
   | some (.ok (s1, r1)), .ok (s2, r2) =>
-    if s1 = s2 ∧ r1 = r2 then "" else s!" INTERP!=MODEL idx={s1.index} off={s1.offset} n={s1.n} rows={r1.length}"
+    if s1 = s2 ∧ r1 = r2 then "" else s!" INTERP!=MODEL idx={s1.index} off={s1.offset} n={s1.n} rows={r1.length}{vsImpl (canon s1 r1) impl}"
   | some (.error _), .error _ => ""
-  | some (.error _), .ok _ => " INTERP!=MODEL panic"
-  | some (.ok _), .error _ => " INTERP!=MODEL no panic"
+  | some (.error _), .ok _ => s!" INTERP!=MODEL panic{vsImpl "panic" impl}"
+  | some (.ok (s1, r1)), .error _ => s!" INTERP!=MODEL no panic{vsImpl (canon s1 r1) impl}"
   | Option.none, _ => " INTERP!=MODEL stuck"
 
-def pgInterp (body : DynExec.Stmt) (s : Pager.St) (w h : Nat) (want : Pager.St) (rows : Option WidExec.Win) : String :=
+def pgInterp (body : DynExec.Stmt) (s : Pager.St) (w h : Nat) (want : Pager.St) (rows : Option WidExec.Win)
+    (canon : Pager.St → WidExec.Win → String) (impl : String) : String :=
   match WidExec.runPager WidExec.genB body [s.text] s w h true with
   | some (s1, win) =>
     if s1 == want && (match rows with | some r => win == r | Option.none => true) then ""
-    else s!" INTERP!=MODEL off={s1.offset} lines={s1.lines.length} width={s1.width}"
+    else s!" INTERP!=MODEL off={s1.offset} lines={s1.lines.length} width={s1.width}{vsImpl (canon s1 win) impl}"
   | Option.none => " INTERP!=MODEL stuck"
 
-def sbInterp (total view top : Int) (h : Nat) : String :=
+def sbInterp (total view top : Int) (h : Nat) (canon : List Nat → String) (impl : String) : String :=
   match WidExec.runBar WidExec.genB.barDraw total view top 1 h (h + 2) true with
-  | some rows => if rows = Scrollbar.rows total view top h then "" else s!" INTERP!=MODEL rows={rows}"
+  | some rows => if rows = Scrollbar.rows total view top h then "" else s!" INTERP!=MODEL rows={rows}{vsImpl (canon rows) impl}"
   | Option.none => " INTERP!=MODEL stuck"
 
 inductive W where
@@ -127,7 +131,7 @@ def slDrawVerdict (n h : Nat) (idx : Int) (rows : String) : String :=
 def slStep (s : SimpleList.St) (n : Nat) (op : List String) (impl : String) : W × String :=
   let nav (o : SimpleList.Op) (n' : Nat) : W × String :=
     let s' := SimpleList.nav genRhs s o
-    let mc := s!"idx={s'.index}{slInterp s o}"
+    let mc := s!"idx={s'.index}{slInterp s o (fun s1 _ => s!"idx={s1.index}") impl}"
     match parseIdx impl with
     | some i => (.sl s' n', s!"{mc}\t{impl}\t{slIdxVerdict n' i}")
     | Option.none => (.dead, s!"{mc}\t{impl}\tFAIL navigation panicked or unparsable result")
@@ -143,8 +147,8 @@ def slStep (s : SimpleList.St) (n : Nat) (op : List String) (impl : String) : W 
     match h.toNat? with
     | some h =>
       let (w, mc) : W × String := match SimpleList.draw genRhs s h with
-        | .ok (s', rows) => (W.sl s' n, s!"idx={s'.index} rows={slRowsCanon rows h}{slInterp s (.draw h)}")
-        | .error _ => (W.dead, s!"panic{slInterp s (.draw h)}")
+        | .ok (s', rows) => (W.sl s' n, s!"idx={s'.index} rows={slRowsCanon rows h}{slInterp s (.draw h) (fun s1 r1 => s!"idx={s1.index} rows={slRowsCanon r1 h}") impl}")
+        | .error _ => (W.dead, s!"panic{slInterp s (.draw h) (fun s1 r1 => s!"idx={s1.index} rows={slRowsCanon r1 h}") impl}")
       if impl = "panic" then (.dead, s!"{mc}\tpanic\tFAIL Draw panicked ({n} items, height {h})")
       else
         let fs := fields impl
@@ -266,7 +270,7 @@ def pgStep (s : Pager.St) (lastW : Int) (fresh : Bool) (ioff : Int) (op : List S
     | Option.none => (.dead, bad)
   | ["layout"] =>
     let s' := Pager.relayout flush s
-    let mc := s!"lines={pgLines s'.lines}{pgInterp WidExec.genB.pagerLayout s 0 0 s' Option.none}"
+    let mc := s!"lines={pgLines s'.lines}{pgInterp WidExec.genB.pagerLayout s 0 0 s' Option.none (fun s1 _ => s!"lines={pgLines s1.lines}") impl}"
     let v := match kv "lines" (fields impl) with
       | some l => pgCompleteVerdict s.text lastW (parseLines l)
       | Option.none => "FAIL Layout panicked or unparsable result"
@@ -275,7 +279,7 @@ def pgStep (s : Pager.St) (lastW : Int) (fresh : Bool) (ioff : Int) (op : List S
     match w.toNat?, h.toNat? with
     | some w, some h =>
       let (s', rows) := Pager.draw flush s w h
-      let mc := s!"off={s'.offset} lines={pgLines s'.lines} rows={pgRows rows}{pgInterp WidExec.genB.pagerDraw s w h s' (some rows)}"
+      let mc := s!"off={s'.offset} lines={pgLines s'.lines} rows={pgRows rows}{pgInterp WidExec.genB.pagerDraw s w h s' (some rows) (fun s1 win => s!"off={s1.offset} lines={pgLines s1.lines} rows={pgRows win}") impl}"
       let relaid := (w : Int) ≠ lastW
       let fresh' := fresh || relaid
       let fs := fields impl
@@ -291,10 +295,10 @@ def pgStep (s : Pager.St) (lastW : Int) (fresh : Bool) (ioff : Int) (op : List S
     | _, _ => (.dead, bad)
   | ["down"] =>
     let s' := Pager.scrollDown s
-    (.pg s' lastW fresh (implOff impl (ioff + 1)), s!"off={s'.offset}{pgInterp WidExec.genB.pagerScrollDown s 0 0 s' Option.none}\t{impl}\t{pgScrollVerdict ioff 1 impl}")
+    (.pg s' lastW fresh (implOff impl (ioff + 1)), s!"off={s'.offset}{pgInterp WidExec.genB.pagerScrollDown s 0 0 s' Option.none (fun s1 _ => s!"off={s1.offset}") impl}\t{impl}\t{pgScrollVerdict ioff 1 impl}")
   | ["up"] =>
     let s' := Pager.scrollUp s
-    (.pg s' lastW fresh (implOff impl (ioff - 1)), s!"off={s'.offset}{pgInterp WidExec.genB.pagerScrollUp s 0 0 s' Option.none}\t{impl}\t{pgScrollVerdict ioff (-1) impl}")
+    (.pg s' lastW fresh (implOff impl (ioff - 1)), s!"off={s'.offset}{pgInterp WidExec.genB.pagerScrollUp s 0 0 s' Option.none (fun s1 _ => s!"off={s1.offset}") impl}\t{impl}\t{pgScrollVerdict ioff (-1) impl}")
   | ["off", k] =>
     match k.toInt? with
     | some k => (.pg { s with offset := k } lastW fresh (implOff impl k), s!"off={k}\t{impl}\t-")
@@ -317,7 +321,7 @@ def sbVerdict (total view top : Int) (h : Nat) (rows : List Nat) : String :=
 def sbStep (op : List String) (impl : String) : String :=
   match op.mapM (·.toInt?) with
   | some [total, view, top, h] =>
-    let mc := s!"rows={joinNats "," (Scrollbar.rows total view top h.toNat)}{sbInterp total view top h.toNat}"
+    let mc := s!"rows={joinNats "," (Scrollbar.rows total view top h.toNat)}{sbInterp total view top h.toNat (fun rows => s!"rows={joinNats "," rows}") impl}"
     match kv "rows" (fields impl) with
     | some r =>
       match commaNats? r with
